@@ -393,7 +393,18 @@ def run(ctx):
     maxlen = int(cfg.get_option("hash.max_sequence_size"))
     strata = [(maxlen, vals)]
     # second stratum: a small max_sequence_size so that SEQUENCE_TOO_LONG is reachable
-    strata.append((2, [j for j in vals if j["t"] in ("list", "tuple", "dict", "odict", "dc", "nt", "dcs")][:1500]))
+    conts = [j for j in vals if j["t"] in ("list", "tuple", "dict", "odict", "dc", "nt", "dcs")]
+    three = [jv("int", "1"), jv("int", "2"), jv("int", "3")]
+    long_ones = [jv("list", three), jv("tuple", three), jv("nt", [["k", three[0]], ["a", three[1]], ["b", three[2]]]),
+                 jv("dict", [[jv("str", "a"), three[0]], [jv("str", "b"), three[1]], [jv("str", "c"), three[2]]]),
+                 jv("dc", [["k", three[0]], ["a", three[1]], ["b", three[2]]])]
+    # a sequence that is too long, met below an index, a key, a field (the error message names the way to it)
+    nested_long = []
+    for lo in long_ones:
+        nested_long += [lo, jv("list", [lo]), jv("tuple", [jv("int", "0"), lo]), jv("dict", [[jv("str", "k"), lo]]), jv("dict", [[jv("int", "7"), lo]]),
+                        jv("dc", [["k", lo]]), jv("nt", [["k", lo]]), jv("list", [jv("list", [jv("dict", [[jv("str", "k"), lo]])])])]
+    stride = max(1, len(conts) // 1500)
+    strata.append((2, nested_long + conts[::stride][:1500]))
 
     for (mx, vs) in strata:
         cfg.set_option("hash.max_sequence_size", mx)
